@@ -411,8 +411,10 @@ Definition setitem_spec (shape : list Z) (a : nd) (idx : list index) (vshape : l
    axis is reversed when the (only) index is a slice with a negative step, or a
    list whose last position is smaller than its first (after making negative
    integers positive - the "fix:" commit), provided the bounds have more than
-   one element. *)
-Definition reverse_bounds (size : Z) (bsize : Z) (p : pindex) : bool :=
+   one element and exactly two vertices per cell (a later "fix:" commit). *)
+Definition reverse_bounds (nb : Z) (size : Z) (bsize : Z) (p : pindex) : bool :=
+  (* only bounds with exactly two vertices per cell are ever reversed *)
+  (nb =? 2) &&
   match p with
   | PSlice _ _ (Some st) => st <? 0
   | PSlice _ _ None => false
